@@ -50,6 +50,12 @@ pub enum Op {
     /// the next state-changing operation runs on a helper thread (the engine is `Send`); queries
     /// continue on the run thread afterwards
     OnOtherThread,
+    /// a load that must fail (fault kind: 0 empty, 1 truncated to k/8, 2 wrong version byte, 3 foreign
+    /// header, 4 header only): the engine must go on exactly as before
+    LoadFaulty(usize, u8, u8),
+    /// the same operation many times in a row, with counts around 2^8 and 2^16: 0 = alternate between
+    /// two tag sets (`use_tags`), 1 = the most recent query again and again, 2 = `enable_tags` of the same set
+    Burst(u8, u32, Vec<String>, Vec<String>),
 }
 
 impl Op {
@@ -77,6 +83,8 @@ impl Op {
             Op::Optimize => "optimize",
             Op::ProbeAll => "probe_all",
             Op::OnOtherThread => "on_other_thread",
+            Op::LoadFaulty(..) => "load_faulty",
+            Op::Burst(..) => "burst",
         }
     }
     pub fn mutating(&self) -> bool {
@@ -151,6 +159,14 @@ pub fn gen_ops(seed: u64, w: &World, mix: &OpMix) -> Vec<Op> {
             x -= *wt;
         }
         let op = match k {
+            0 if r.chance(3) => {
+                let n = match r.below(20) {
+                    0..=11 => r.range(2, 6) as u32,
+                    12..=16 => 255 + r.below(3) as u32,
+                    _ => 65_535 + r.below(3) as u32,
+                };
+                Op::Burst(*r.pick(&[0u8, 0, 1, 2]), n, subset(&mut r), subset(&mut r))
+            }
             0 => match r.below(10) {
                 0..=3 => Op::UseTags(subset(&mut r)),
                 4..=6 => Op::EnableTags(subset(&mut r)),
@@ -183,7 +199,9 @@ pub fn gen_ops(seed: u64, w: &World, mix: &OpMix) -> Vec<Op> {
             }
             3 => {
                 let slot = r.below(3);
-                if r.chance(50) {
+                if r.chance(12) {
+                    Op::LoadFaulty(slot, r.below(5) as u8, r.range(0, 7) as u8)
+                } else if r.chance(50) {
                     Op::Serialize(slot)
                 } else {
                     Op::Deserialize(match r.below(20) {
@@ -649,6 +667,10 @@ pub struct RunStats {
     pub fused_match: u64,
     #[serde(default)]
     pub ops_on_helper_thread: u64,
+    #[serde(default)]
+    pub faulty_loads_rejected: u64,
+    #[serde(default)]
+    pub burst_calls: u64,
     pub states: Vec<u64>,
     pub op_kinds: u64,
 }
@@ -1123,6 +1145,75 @@ impl<'a> Exec<'a> {
                             }
                         }
                     }
+                    Op::LoadFaulty(slot, kind, k) => {
+                        if let Sut::Engine(e) = &mut sut {
+                            let image: Vec<u8> = match slots[*slot].clone() {
+                                Some(s) => s.bytes,
+                                None => match e.serialize_raw() {
+                                    Ok(b) => b,
+                                    Err(e) => return Err(("serialize".into(), "serialize_raw".into(), format!("{:?}", e), "Ok".into())),
+                                },
+                            };
+                            iobuf.clear();
+                            match kind {
+                                0 => {}
+                                1 => iobuf.extend_from_slice(&image[..(image.len() * (*k as usize) / 8).min(image.len().saturating_sub(1))]),
+                                2 => {
+                                    iobuf.extend_from_slice(&image);
+                                    if iobuf.len() > 4 {
+                                        iobuf[4] = iobuf[4].wrapping_add(1 + *k);
+                                    }
+                                }
+                                3 => {
+                                    iobuf.extend_from_slice(&[0x1f, 0x8b]);
+                                    iobuf.extend_from_slice(&image);
+                                }
+                                _ => iobuf.extend_from_slice(&image[..image.len().min(5)]),
+                            }
+                            let io = &iobuf[..];
+                            let r = maybe_other_thread(on_helper, || e.deserialize(io));
+                            match r {
+                                Err(_) => stats.faulty_loads_rejected += 1,
+                                // (whether a damaged image may load is C10's business; here the history simply ends)
+                                Ok(()) => return Err(("skip".into(), String::new(), String::new(), String::new())),
+                            }
+                        }
+                    }
+                    Op::Burst(kind, n, a, b) => {
+                        let av: Vec<&str> = a.iter().map(|s| s.as_str()).collect();
+                        let bv: Vec<&str> = b.iter().map(|s| s.as_str()).collect();
+                        match kind {
+                            0 => {
+                                for i in 0..*n {
+                                    sut.use_tags(if i % 2 == 0 { &av } else { &bv });
+                                }
+                                model.tags = if *n % 2 == 1 { a.iter().cloned().collect() } else { b.iter().cloned().collect() };
+                                model.version += 1;
+                                stats.tag_switches += *n as u64;
+                            }
+                            2 => {
+                                for _ in 0..*n {
+                                    sut.enable_tags(&av);
+                                }
+                                for x in a {
+                                    model.tags.insert(x.clone());
+                                }
+                                model.version += 1;
+                                stats.tag_switches += *n as u64;
+                            }
+                            _ => {
+                                // the most recent network query, n - 1 more times; the probes that follow compare
+                                if let Some(Op::Check(i)) = &last_query {
+                                    if let Some(rq) = self.reqs.reqs[*i].as_ref() {
+                                        for _ in 1..(*n).min(300) {
+                                            let _ = sut.check(rq);
+                                        }
+                                    }
+                                }
+                            }
+                        }
+                        stats.burst_calls += *n as u64;
+                    }
                     Op::Restart => {
                         if let Sut::Engine(e) = &sut {
                             let b = match e.serialize_raw() {
@@ -1223,11 +1314,23 @@ impl<'a> Exec<'a> {
                     fail!("no-panic", step, opdesc.clone(), "panic".to_string(), last_panic(), "no panic".to_string());
                     break 'ops;
                 }
+                Ok(Err((oracle, _, _, _))) if oracle == "skip" => break 'ops,
                 Ok(Err((oracle, what, got, want))) => {
                     fail!(oracle, step, opdesc.clone(), what, got, want);
                     break 'ops;
                 }
                 Ok(Ok(())) => {}
+            }
+            // ---- the enabled-tag set is part of the state every operation must leave as the model says
+            if op.mutating() && matches!(self.check, Check::C06 | Check::C07 | Check::C08) {
+                for t in w.tags.iter().map(|s| s.as_str()).chain(std::iter::once("unknown")) {
+                    let got = sut.tag_exists(t);
+                    let want = model.tags.contains(t);
+                    if got != want {
+                        fail!("tag-model", step, opdesc.clone(), format!("tag_exists {} after the operation", t), got.to_string(), want.to_string());
+                        break 'ops;
+                    }
+                }
             }
 
             // ---- oracles for the current model state
